@@ -53,4 +53,9 @@ class GibbsEqConst(MassActionEq):
     def eq_const(self, variables, backend=math, **kwargs):
         dH_over_R, dS_over_R = self.all_args(variables, backend=backend)
         (T,) = self.all_params(variables, backend=backend)
-        return backend.exp(dS_over_R - dH_over_R / T)
+        exponent = dS_over_R - dH_over_R / T
+        try:
+            exponent = exponent.simplified  # e.g. kJ/J: math.exp would only see the magnitude
+        except AttributeError:
+            pass
+        return backend.exp(exponent)
